@@ -29,17 +29,23 @@ package keeper
 //@   ensures !found ==> len(avp.VestingPools) == 0 && avp.VestingPools == nil
 //@   ensures found ==> avp.Owner == accountAddress && len(avp.VestingPools) == $pLen[accountAddress] && $pLen[accountAddress] >= 0
 //@   ensures found ==> freshSlice(avp.VestingPools)
-//@   ensures found ==> (forall i :: {avp.VestingPools[i]} 0 <= i && i < len(avp.VestingPools) ==>
-//@     fresh(avp.VestingPools[i]) && poolEq(avp.VestingPools[i], accountAddress, i))
+//@   ensures found ==> (forall i :: {avp.VestingPools[i]} {$pIL[accountAddress][i]} {$pName[accountAddress][i]} {$pW[accountAddress][i]} {$pS[accountAddress][i]}
+//@     0 <= i && i < len(avp.VestingPools) ==> fresh(avp.VestingPools[i]) && poolEq(avp.VestingPools[i], accountAddress, i))
 //@   ensures found ==> (forall i, j :: {avp.VestingPools[i], avp.VestingPools[j]} 0 <= i && i < j && j < len(avp.VestingPools) ==> avp.VestingPools[i] != avp.VestingPools[j])
 //@
+//@ // (a ghost modelling choice: record positions at or beyond the stored length keep their previous ghost values)
 //@ func (k Keeper) SetAccountVestingPools(ctx, avp)
 //@   trusted
 //@   requires forall i :: {avp.VestingPools[i]} 0 <= i && i < len(avp.VestingPools) ==> avp.VestingPools[i] != nil
 //@   modifies $pFound, $pLen, $pName, $pType, $pLockStart, $pLockEnd, $pIL, $pW, $pS, $pGenesis
 //@   ensures $pFound == store(old($pFound), avp.Owner, true) && $pLen == store(old($pLen), avp.Owner, len(avp.VestingPools))
-//@   ensures forall i :: {avp.VestingPools[i]} 0 <= i && i < len(avp.VestingPools) ==> poolEq(avp.VestingPools[i], avp.Owner, i)
-//@   ensures forall o: str :: {$pIL[o]} o != avp.Owner ==> $pName[o] == old($pName[o]) && $pType[o] == old($pType[o]) && $pLockStart[o] == old($pLockStart[o])
+//@   ensures forall i :: {avp.VestingPools[i]} {$pIL[avp.Owner][i]} {$pName[avp.Owner][i]} {$pW[avp.Owner][i]} {$pS[avp.Owner][i]} {$pType[avp.Owner][i]} {$pLockEnd[avp.Owner][i]} {$pLockStart[avp.Owner][i]} {$pGenesis[avp.Owner][i]}
+//@     0 <= i && i < len(avp.VestingPools) ==> poolEq(avp.VestingPools[i], avp.Owner, i)
+//@   ensures forall i :: {$pIL[avp.Owner][i]} {$pName[avp.Owner][i]} {$pW[avp.Owner][i]} {$pS[avp.Owner][i]} {$pType[avp.Owner][i]} {$pLockEnd[avp.Owner][i]} {$pLockStart[avp.Owner][i]} {$pGenesis[avp.Owner][i]}
+//@     i < 0 || i >= len(avp.VestingPools) ==> $pName[avp.Owner][i] == old($pName[avp.Owner][i]) && $pType[avp.Owner][i] == old($pType[avp.Owner][i])
+//@     && $pLockStart[avp.Owner][i] == old($pLockStart[avp.Owner][i]) && $pLockEnd[avp.Owner][i] == old($pLockEnd[avp.Owner][i]) && $pIL[avp.Owner][i] == old($pIL[avp.Owner][i])
+//@     && $pW[avp.Owner][i] == old($pW[avp.Owner][i]) && $pS[avp.Owner][i] == old($pS[avp.Owner][i]) && $pGenesis[avp.Owner][i] == old($pGenesis[avp.Owner][i])
+//@   ensures forall o: str :: {$pIL[o]} {$pName[o]} {$pW[o]} {$pS[o]} {$pType[o]} {$pLockEnd[o]} {$pLockStart[o]} {$pGenesis[o]} o != avp.Owner ==> $pName[o] == old($pName[o]) && $pType[o] == old($pType[o]) && $pLockStart[o] == old($pLockStart[o])
 //@     && $pLockEnd[o] == old($pLockEnd[o]) && $pIL[o] == old($pIL[o]) && $pW[o] == old($pW[o]) && $pS[o] == old($pS[o]) && $pGenesis[o] == old($pGenesis[o])
 //@
 //@ func (k Keeper) GetParams(ctx) (p)
@@ -62,6 +68,8 @@ package keeper
 //@ pred poolsOK(o) = $pLen[o] >= 0 && (forall i :: {$pIL[o][i]} 0 <= i && i < $pLen[o] ==> $pW[o][i] >= 0 && $pS[o][i] >= 0 && $pW[o][i] + $pS[o][i] <= $pIL[o][i])
 //@ pred poolUnchanged(o, i) = $pName[o][i] == old($pName[o][i]) && $pType[o][i] == old($pType[o][i]) && $pLockStart[o][i] == old($pLockStart[o][i])
 //@   && $pLockEnd[o][i] == old($pLockEnd[o][i]) && $pIL[o][i] == old($pIL[o][i]) && $pS[o][i] == old($pS[o][i]) && $pGenesis[o][i] == old($pGenesis[o][i])
+//@ pred poolUnchangedBut(o, i) = $pName[o][i] == old($pName[o][i]) && $pType[o][i] == old($pType[o][i]) && $pLockStart[o][i] == old($pLockStart[o][i])
+//@   && $pLockEnd[o][i] == old($pLockEnd[o][i]) && $pIL[o][i] == old($pIL[o][i]) && $pGenesis[o][i] == old($pGenesis[o][i])
 //@ pred otherOwnersUnchanged(o) = forall o2: str :: {$pIL[o2]} o2 != o ==> $pFound[o2] == old($pFound[o2]) && $pLen[o2] == old($pLen[o2])
 //@   && $pName[o2] == old($pName[o2]) && $pType[o2] == old($pType[o2]) && $pLockStart[o2] == old($pLockStart[o2]) && $pLockEnd[o2] == old($pLockEnd[o2])
 //@   && $pIL[o2] == old($pIL[o2]) && $pW[o2] == old($pW[o2]) && $pS[o2] == old($pS[o2]) && $pGenesis[o2] == old($pGenesis[o2])
@@ -70,12 +78,16 @@ package keeper
 //@
 //@ func (k Keeper) WithdrawAllAvailable(ctx, owner) (withdrawn, returnedError)
 //@   requires poolsOK(owner)
-//@   modifies $pFound, $pLen, $pName, $pType, $pLockStart, $pLockEnd, $pIL, $pW, $pS, $pGenesis, $bal, $evCount, $evTag, $evRef
+//@   modifies $pFound, $pLen, $pName, $pType, $pLockStart, $pLockEnd, $pIL, $pW, $pS, $pGenesis, $bal, $evCount, $evTag, $evRef, $accTag, $accSeq, $accPub
+//@   ensures existingAccountsUntouched()
 //@   ensures returnedError != nil ==> poolStoreUnchanged() && $bal == old($bal)
 //@   ensures returnedError == nil ==> old($pFound[owner]) && old($pLen[owner]) > 0 && $pFound[owner] && $pLen[owner] == old($pLen[owner]) && otherOwnersUnchanged(owner)
 //@   // time lock: a pool whose lock end is in the future is untouched; a matured pool is paid out completely
-//@   ensures returnedError == nil ==> (forall i :: {$pW[owner][i]} 0 <= i && i < $pLen[owner] ==> poolUnchanged(owner, i)
-//@     && $pW[owner][i] == old($pW[owner][i]) + wdOf(old($pIL[owner][i]), old($pS[owner][i]), old($pW[owner][i]), old($pLockEnd[owner][i]), $blockTime))
+//@   ensures returnedError == nil ==> $pName[owner] == old($pName[owner]) && $pType[owner] == old($pType[owner]) && $pLockStart[owner] == old($pLockStart[owner])
+//@     && $pLockEnd[owner] == old($pLockEnd[owner]) && $pIL[owner] == old($pIL[owner]) && $pS[owner] == old($pS[owner]) && $pGenesis[owner] == old($pGenesis[owner])
+//@   ensures returnedError == nil ==> (forall i :: {$pW[owner][i]} 0 <= i && i < $pLen[owner] ==>
+//@     $pW[owner][i] == old($pW[owner][i]) + wdOf(old($pIL[owner][i]), old($pS[owner][i]), old($pW[owner][i]), old($pLockEnd[owner][i]), $blockTime))
+//@   ensures returnedError == nil ==> (forall i :: {$pW[owner][i]} i < 0 || i >= $pLen[owner] ==> $pW[owner][i] == old($pW[owner][i]))
 //@   ensures returnedError == nil ==> !withdrawn.Amount.IsNil() && withdrawn.Denom == $vestingDenom
 //@     && withdrawn.Amount == sumWd(old($pIL[owner]), old($pS[owner]), old($pW[owner]), old($pLockEnd[owner]), $blockTime, old($pLen[owner]))
 //@   // the coins paid leave the module account and reach the owner
@@ -123,7 +135,8 @@ package keeper
 //@ // ---- C05: every operation changes the module balance by exactly the change of the owner's locked sum ----
 //@ func (k Keeper) addVestingPool(ctx, vestingPoolName, accAddress, amount, vestingType, lockStart, lockEnd) (err)
 //@   requires !amount.IsNil() && amount >= 0 && poolsOK(toBech32(accAddress))
-//@   modifies $pFound, $pLen, $pName, $pType, $pLockStart, $pLockEnd, $pIL, $pW, $pS, $pGenesis, $bal
+//@   modifies $pFound, $pLen, $pName, $pType, $pLockStart, $pLockEnd, $pIL, $pW, $pS, $pGenesis, $bal, $accTag, $accSeq, $accPub
+//@   ensures existingAccountsUntouched()
 //@   // a rejected request changes nothing
 //@   ensures err != nil ==> poolStoreUnchanged() && $bal == old($bal)
 //@   ensures err == nil ==> (let o = toBech32(accAddress) in let n = (old($pFound[o]) ? old($pLen[o]) : 0) in
@@ -138,6 +151,118 @@ package keeper
 //@   ensures forall a: str :: {$bal[a]} a != modaddr("cfevesting") && a != accAddress ==> $bal[a] == old($bal[a])
 //@   ensures forall d: str :: {$bal[modaddr("cfevesting")][d]} d != $vestingDenom ==> $bal[modaddr("cfevesting")][d] == old($bal[modaddr("cfevesting")][d])
 //@   prop C05
+
+//@ // ---- typed ghost views of vesting types and vesting-account traces (accessor contracts assumed) ----
+//@ ghost vtFound [str]bool
+//@ ghost vtFree [str]int
+//@ ghost vtLockup [str]int
+//@ ghost vtVesting [str]int
+//@ ghost trFound [str]bool
+//@ ghost trGenesis [str]bool
+//@ ghost trFromGenesisPool [str]bool
+//@ ghost trFromGenesisAccount [str]bool
+//@ func (k Keeper) GetVestingType(ctx, name) (vestingType, err)
+//@   trusted
+//@   ensures (err == nil) == $vtFound[name]
+//@   ensures err == nil ==> vestingType.Name == name && !vestingType.Free.IsNil() && vestingType.Free == $vtFree[name]
+//@     && vestingType.LockupPeriod == $vtLockup[name] && vestingType.VestingPeriod == $vtVesting[name]
+//@ func (k Keeper) AppendVestingAccountTrace(ctx, vestingAccountTrace) (id)
+//@   trusted
+//@   modifies $trFound, $trGenesis, $trFromGenesisPool, $trFromGenesisAccount
+//@   ensures $trFound == store(old($trFound), vestingAccountTrace.Address, true)
+//@   ensures $trGenesis == store(old($trGenesis), vestingAccountTrace.Address, vestingAccountTrace.Genesis)
+//@   ensures $trFromGenesisPool == store(old($trFromGenesisPool), vestingAccountTrace.Address, vestingAccountTrace.FromGenesisPool)
+//@   ensures $trFromGenesisAccount == store(old($trFromGenesisAccount), vestingAccountTrace.Address, vestingAccountTrace.FromGenesisAccount)
+//@ func (k Keeper) Denom(ctx) (res)
+//@   trusted
+//@   ensures res == $vestingDenom
+//@
+//@ // ---- C08 / C09: new vesting accounts ----
+//@ // every account record other than `a` is as before
+//@ pred otherAccountsUnchanged(a) = forall b: str :: {$accTag[b]} b != a ==>
+//@   $accTag[b] == old($accTag[b]) && $accNum[b] == old($accNum[b]) && $accSeq[b] == old($accSeq[b]) && $accPub[b] == old($accPub[b])
+//@   && $accOV[b] == old($accOV[b]) && $accDF[b] == old($accDF[b]) && $accDV[b] == old($accDV[b]) && $accStart[b] == old($accStart[b]) && $accEnd[b] == old($accEnd[b])
+//@ pred allAccountsUnchanged() = $accTag == old($accTag) && $accNum == old($accNum) && $accSeq == old($accSeq) && $accPub == old($accPub)
+//@   && $accOV == old($accOV) && $accDF == old($accDF) && $accDV == old($accDV) && $accStart == old($accStart) && $accEnd == old($accEnd)
+//@ // `a` holds a brand-new continuous vesting account with the given schedule
+//@ pred isNewCVA(a, ov, start, end) = $accTag[a] == accType("cva") && $accOV[a] == ov && $accDF[a] == zeroCoins() && $accDV[a] == zeroCoins()
+//@   && $accStart[a] == start && $accEnd[a] == end && $accSeq[a] == 0 && $accPub[a] == 0
+//@
+//@ func (k Keeper) newContinuousVestingAccount(ctx, to, originalVesting, startTime, vestingEnd) (acc, err)
+//@   // C09: callers must have established that the address has no account
+//@   requires $accTag[to] == 0
+//@   modifies $accTag, $accNum, $accSeq, $accPub, $accOV, $accDF, $accDV, $accStart, $accEnd, $accNextNum, $evCount, $evTag, $evRef
+//@   ensures err == nil ==> acc != nil && isNewCVA(to, originalVesting, startTime, vestingEnd)
+//@   ensures err != nil ==> allAccountsUnchanged()
+//@   ensures otherAccountsUnchanged(to)
+//@   prop C09 C08
+//@
+//@ func (k Keeper) newVestingAccount(ctx, toAddress, amount, free, lockEnd, vestingEnd) (err)
+//@   requires !amount.IsNil() && amount >= 0 && !free.IsNil() && 0 <= free && free <= P && timeOK(lockEnd) && timeOK(vestingEnd) && timeOK($blockTime)
+//@   modifies $accTag, $accNum, $accSeq, $accPub, $accOV, $accDF, $accDV, $accStart, $accEnd, $accNextNum, $evCount, $evTag, $evRef, $bal
+//@   // C09: only an address without account gets one; nothing else is touched
+//@   ensures err == nil ==> old($accTag[toAddress]) == 0
+//@   ensures otherAccountsUnchanged(toAddress) && (old($accTag[toAddress]) != 0 ==> allAccountsUnchanged())
+//@   // C08: vested part = integer part of amount * (1 - free); schedule starts at max(lockEnd, now)
+//@   ensures err == nil ==> $accTag[toAddress] == accType("cva") && $accDV[toAddress] == zeroCoins() && $accSeq[toAddress] == 0 && $accPub[toAddress] == 0
+//@     && $accOV[toAddress][$vestingDenom] == tquo(amount * (P - free), P)
+//@     && (forall d: str :: {$accOV[toAddress][d]} d != $vestingDenom ==> $accOV[toAddress][d] == 0)
+//@     && $accStart[toAddress] == fdiv(max(lockEnd, $blockTime), 1000000000) && $accEnd[toAddress] == fdiv(vestingEnd, 1000000000)
+//@   // the recipient receives exactly `amount` from the module account
+//@   ensures err == nil && toAddress != modaddr("cfevesting") ==>
+//@     $bal[toAddress][$vestingDenom] == old($bal[toAddress][$vestingDenom]) + amount
+//@     && $bal[modaddr("cfevesting")][$vestingDenom] == old($bal[modaddr("cfevesting")][$vestingDenom]) - amount
+//@   ensures err != nil ==> $bal == old($bal)
+//@   ensures forall a: str :: {$bal[a]} a != modaddr("cfevesting") && a != toAddress ==> $bal[a] == old($bal[a])
+//@   reveal chopRound
+//@   prop C08 C09
+
+//@ // index of the last pool named `name` among the first n pools of a row (-1: none) — what the lookup loop selects
+//@ spec func lastNamed(names [int]str, name str, n int) int = n <= 0 ? -1 : (names[n - 1] == name ? n - 1 : lastNamed(names, name, n - 1))
+//@ lemma lastNamedRange(names [int]str, name str, n int)
+//@   induction n
+//@   requires n >= 0
+//@   ensures lastNamed(names, name, n) >= -1 && lastNamed(names, name, n) < n && (lastNamed(names, name, n) >= 0 ==> names[lastNamed(names, name, n)] == name)
+//@   prop C08
+//@ pred vestingTypesSane() = forall n: str :: {$vtFree[n]} $vtFound[n] ==> 0 <= $vtFree[n] && $vtFree[n] <= P && 0 <= $vtLockup[n] && $vtLockup[n] <= 1000000000000000000 && 0 <= $vtVesting[n] && $vtVesting[n] <= 1000000000000000000
+//@ pred poolTimesSane(o) = forall i :: {$pLockEnd[o][i]} 0 <= i && i < $pLen[o] ==> timeOK($pLockEnd[o][i])
+//@
+//@ func (k Keeper) SendToNewVestingAccount(ctx, owner, toAddr, vestingPoolName, amount, restartVesting) (withdrawn, returnedError)
+//@   requires poolsOK(owner) && poolTimesSane(owner) && vestingTypesSane() && timeOK($blockTime) && $blockTime >= -1000000000000000000 && $blockTime <= 1000000000000000000
+//@   modifies $pFound, $pLen, $pName, $pType, $pLockStart, $pLockEnd, $pIL, $pW, $pS, $pGenesis, $bal, $evCount, $evTag, $evRef
+//@   modifies $accTag, $accNum, $accSeq, $accPub, $accOV, $accDF, $accDV, $accStart, $accEnd, $accNextNum
+//@   modifies $trFound, $trGenesis, $trFromGenesisPool, $trFromGenesisAccount
+//@   uses lastNamedRange($pName[owner], vestingPoolName, $pLen[owner])
+//@   // C09: no existing account is replaced or altered
+//@   ensures existingAccountsUntouched()
+//@   ensures returnedError == nil ==> old($accTag[fromBech32(toAddr)]) == 0
+//@   // the pool: Sent grows by exactly `amount`, which never exceeds what is still locked; nothing else changes but the implicit withdrawal
+//@   ensures returnedError == nil ==> (let j = lastNamed(old($pName[owner]), vestingPoolName, old($pLen[owner])) in
+//@     j >= 0 && $pFound[owner] && $pLen[owner] == old($pLen[owner]) && otherOwnersUnchanged(owner)
+//@     && (forall i :: {$pS[owner][i]} 0 <= i && i < $pLen[owner] ==> poolUnchangedBut(owner, i)
+//@          && $pW[owner][i] == old($pW[owner][i]) + wdOf(old($pIL[owner][i]), old($pS[owner][i]), old($pW[owner][i]), old($pLockEnd[owner][i]), $blockTime)
+//@          && $pS[owner][i] == old($pS[owner][i]) + (i == j ? amount : 0))
+//@     && !amount.IsNil() && amount >= 0 && amount <= $pIL[owner][j] - old($pS[owner][j]) - $pW[owner][j])
+//@   // C08: the new account: amount*(1-free) vests, on the restart schedule or at the pool's lock end
+//@   ensures returnedError == nil ==> (let j = lastNamed(old($pName[owner]), vestingPoolName, old($pLen[owner])) in let a = fromBech32(toAddr) in
+//@     let ty = old($pType[owner][j]) in
+//@     $accTag[a] == accType("cva") && $accOV[a][$vestingDenom] == tquo(amount * (P - $vtFree[ty]), P)
+//@     && (restartVesting ==> $accStart[a] == fdiv($blockTime + $vtLockup[ty], 1000000000) && $accEnd[a] == fdiv($blockTime + $vtLockup[ty] + $vtVesting[ty], 1000000000))
+//@     && (!restartVesting ==> $accStart[a] == fdiv(old($pLockEnd[owner][j]), 1000000000) && $accEnd[a] == fdiv(old($pLockEnd[owner][j]), 1000000000)))
+//@   // C17: the new account is recorded with the pool's genesis flag
+//@   ensures returnedError == nil ==> (let j = lastNamed(old($pName[owner]), vestingPoolName, old($pLen[owner])) in
+//@     $trFound[toAddr] && !$trGenesis[toAddr] && !$trFromGenesisAccount[toAddr] && $trFromGenesisPool[toAddr] == old($pGenesis[owner][j]))
+//@   // C05: coins: module pays the implicit withdrawal to the owner and `amount` to the recipient
+//@   ensures returnedError == nil && fromBech32(owner) != modaddr("cfevesting") && fromBech32(toAddr) != modaddr("cfevesting") ==>
+//@     $bal[modaddr("cfevesting")][$vestingDenom] == old($bal[modaddr("cfevesting")][$vestingDenom]) - withdrawn.Amount - amount
+//@     && $bal[fromBech32(toAddr)][$vestingDenom] == old($bal[fromBech32(toAddr)][$vestingDenom]) + amount
+//@   ensures returnedError == nil ==> withdrawn.Amount == sumWd(old($pIL[owner]), old($pS[owner]), old($pW[owner]), old($pLockEnd[owner]), $blockTime, old($pLen[owner]))
+//@   prop C08 C09 C05 C17
+//@ loop Keeper.SendToNewVestingAccount#1
+//@   invariant 0 <= \i && \i <= len(accVestingPools.VestingPools)
+//@   invariant lastNamed($pName[owner], vestingPoolName, \i) >= 0 ==> vestingPool == accVestingPools.VestingPools[lastNamed($pName[owner], vestingPoolName, \i)]
+//@   invariant lastNamed($pName[owner], vestingPoolName, \i) < 0 ==> vestingPool == nil
+//@   invariant lastNamed($pName[owner], vestingPoolName, \i) >= -1 && lastNamed($pName[owner], vestingPoolName, \i) < \i
 
 //@ // ---- C13: only governance changes the vesting denomination, and only while no pool exists ----
 //@ spec func vpKey() str = global("types.ParamsKey")
